@@ -32,7 +32,7 @@ import re as _re
 from harness.core import Check, Rng, use_repo
 from harness import gen_grammar as G
 from harness import peg
-from harness.txutil import dump_model, outcome, with_timeout
+from harness.txutil import dump_model, outcome
 
 KF_BOOL = "C20-bool-case-sensitive"
 
@@ -162,6 +162,7 @@ class Deriver20(G.Deriver):
 
 
 MAX_TEXT = 140
+CASE_BUDGET = 25  # seconds of wall clock per case before the remaining texts / variants are dropped
 
 
 def sentences20(g, rng, n_derived, n_mutated):
@@ -245,6 +246,34 @@ def simple_grammar(rng):
 
 
 # ---- running the real code ---------------------------------------------------
+class _Limit(BaseException):
+    pass
+
+
+def limited(fn, secs):
+    """fn() under a wall-clock limit -> its value or {"other": "Timeout"}.  Nested inside the runner's per-case
+    alarm, which is restored with sub-second precision (txutil.with_timeout re-arms it with whole seconds and so
+    shortens it by up to a second per call, which adds up over the dozens of parses of one case)."""
+    import signal
+    import time
+
+    def h(signum, frame):
+        raise _Limit()
+
+    old_h = signal.signal(signal.SIGALRM, h)
+    old_rem = signal.setitimer(signal.ITIMER_REAL, secs)[0]
+    t0 = time.time()
+    try:
+        return fn()
+    except _Limit:
+        return {"other": "Timeout"}
+    finally:
+        signal.setitimer(signal.ITIMER_REAL, 0)
+        signal.signal(signal.SIGALRM, old_h)
+        if old_rem > 0:
+            signal.setitimer(signal.ITIMER_REAL, max(0.01, old_rem - (time.time() - t0)))
+
+
 class _StubNoMatch(Exception):
     pass
 
@@ -336,7 +365,7 @@ def run_one(mm, nodes, objs, text):
             return {"other": type(e).__name__, "msg": str(e)[:200]}
         return None
 
-    r = with_timeout(do_parse, 5)
+    r = limited(do_parse, 5)
     if r is not None:
         d["parse"] = r
         tree = None
@@ -372,7 +401,7 @@ def run_one(mm, nodes, objs, text):
     def do_load():
         return dump_model(mm.model_from_str(text))
 
-    o = with_timeout(lambda: outcome(do_load), 5)
+    o = limited(lambda: outcome(do_load), 5)
     if "err" in o:
         e = o["err"]
         o = {"err": [e["cls"], e["line"], e["col"]]}
@@ -381,13 +410,22 @@ def run_one(mm, nodes, objs, text):
     return d
 
 
-def variants_of(text, spans, rng, k):
+def variants_of(text, spans, rng, k, exhaustive=False):
     """case variants of `text` changing only cased characters inside `spans`"""
     pos = [i for a, b in spans for i in range(a, b) if i < len(text) and has_case(text[i])]
     pos = sorted(set(pos))
     if not pos:
         return []
     cs = list(text)
+    if exhaustive and len(pos) <= 6:  # every variant of the literal-matched letters
+        out = []
+        for mask in range(1, 1 << len(pos)):
+            o = list(cs)
+            for j, i in enumerate(pos):
+                if mask >> j & 1:
+                    o[i] = flip(o[i])
+            out.append("".join(o))
+        return out
 
     def mk(f):
         out = list(cs)
@@ -524,7 +562,7 @@ class Prop(Check):
     ]
     DRIVER = "Drivers/Case.lean"
     QUICK_CASES = 400
-    THOROUGH_CASES = 7000
+    THOROUGH_CASES = 5000
     CASE_TIMEOUT = 90
     RULE = ("generated grammars (random: common/abstract/match rules, all operators, separators, eolterm, predicates, "
             "suppression, rule modifiers, Comment rule, mixed-case keywords, regex literals with letters; targeted: "
@@ -569,12 +607,21 @@ class Prop(Check):
                 gtext, texts, lits, textual = link_grammar(r)
                 case = {"grammar": gtext, "cfg": cfg, "texts": texts, "lits": lits, "textual": textual}
             case["stream"] = stream
+            if tier != "quick" and stream == "simple" and r.chance(0.15):
+                case["exhaustive"] = True  # all 2^k variants when the text has k <= 6 literal-matched letters
             case["vseed"] = r.next()
             case["nvar"] = 3 if tier == "quick" else 6
             yield case
 
     # ---- implementation -------------------------------------------------------
     def impl(self, case):
+        try:
+            return self._impl(case)
+        except _Limit:
+            # a nested limit fired outside its guarded region (heavy machine load): nothing observed, nothing claimed
+            return {"aborted": True, "late_timeout": True}
+
+    def _impl(self, case):
         use_repo()
         from textx import metamodel_from_str
 
@@ -596,10 +643,17 @@ class Prop(Check):
         base = base_objs()
         bool_idx = [i for i, e in enumerate(objs) if e is base[1]]
         res["bool_nodes"] = bool_idx
+        import time
+
+        deadline = time.time() + CASE_BUDGET
+
         def timed_out(d):
-            return "Timeout" in (d["parse"].get("other"), d["load"].get("other"))
+            return "Timeout" in (d["parse"].get("other"), d["load"].get("other")) or time.time() > deadline
 
         for t in case["texts"]:
+            if time.time() > deadline:
+                res["aborted"] = True
+                break
             x = run_one(mm, nodes, objs, t)
             grp = {"x": x, "ys": []}
             if timed_out(x):  # machine load (or a hanging implementation): do not pile up further waits
@@ -608,7 +662,8 @@ class Prop(Check):
                 break
             ys = []
             if "ok" in x["load"] and x.get("spans"):
-                ys = [(y, False) for y in variants_of(t, x["spans"], rng.fork("v"), case.get("nvar", 4))]
+                ys = [(y, False) for y in variants_of(t, x["spans"], rng.fork("v"), case.get("nvar", 4),
+                                                      case.get("exhaustive", False))]
             for y in case.get("variants", {}).get(t, []):
                 if all(y != z for z, _ in ys) and y != t and len(y) == len(t):
                     ys.append((y, False))
@@ -641,7 +696,7 @@ class Prop(Check):
                         if f:
                             left.append(f)
                     grp["bool_ci_left"] = left
-                    grp["bool_rows_differ"] = any(x["rows"][i] != d["rows"][i] for d in fails for i in bool_idx)
+                    grp["bool_rows_differ"] = all(any(x["rows"][i] != d["rows"][i] for i in bool_idx) for d in fails)
                 finally:
                     B.regex = old
             res["groups"].append(grp)
@@ -800,12 +855,15 @@ class Prop(Check):
                         hyp_all += 1
                         hyp_ok += bool(h["allic"] and h["wsneutral"] and a and b)
         return {"texts": len(groups), "accepted_texts": len(acc), "literal_variants": nv,
+                "aborted_cases": sum(1 for o in obs if o.get("aborted")),
                 "timeouts": sum(1 for g in groups for d in [g["x"]] + g["ys"]
                                 if "Timeout" in (d["parse"].get("other"), d["load"].get("other"))),
                 "wild_variants": sum(1 for g in groups for d in g["ys"] if d["wild"]),
                 "variants_accepted": sum(1 for g in acc for d in g["ys"] if not d["wild"] and "ok" in d["load"]),
                 "pairs_with_theorem_hypotheses": hyp_ok, "pairs": hyp_all,
                 "grammar_errors": sum(1 for o in obs if "grammar_error" in o),
+                "exhaustive_groups": sum(1 for c, o in zip(cases, obs) if c.get("exhaustive") for g in o.get("groups", [])
+                                         if sum(1 for d in g["ys"] if not d["wild"]) in (1, 3, 7, 15, 31, 63)),
                 "streams": {s: sum(1 for c in cases if c.get("stream") == s) for s in ("random", "simple", "link")},
                 "autokwd_cases": sum(1 for c in cases if c["cfg"].get("autokwd")),
                 "ignore_case_off_cases": sum(1 for c in cases if not c["cfg"].get("ignore_case"))}
